@@ -539,6 +539,23 @@ class ispec(object):
                         break
                     if d[0]!='=':
                         size += loc
+        if chklen:
+            # fixed LEN: a '(*)' directive gets all the bits of the FORMAT
+            # that the other directives do not claim (in either direction)
+            used = 0
+            for d in fmt:
+                if d in ("-", "0", "1"):
+                    used += 1
+                elif isinstance(d, Bits):
+                    used += d.size
+                elif d[2] != "*" and d[0] != "=":
+                    used += d[2]
+            fmt = [
+                d
+                if (isinstance(d, (str, Bits)) or d[2] != "*")
+                else [d[0], d[1], size - used]
+                for d in fmt
+            ]
         if size % 8 != 0:
             logger.error("ispec length %d not a multiple of 8 %s" % (size,self.format))
         self.fix = Bits(0, size)  # values of fixed bits
